@@ -155,3 +155,22 @@ pub fn read_replay(path: &std::path::Path) -> Result<Replay, String> {
     let prop = header.get("property").cloned().ok_or("no property line")?;
     Ok(Replay { prop, header, body })
 }
+
+/// Run one case; a panic that escapes from the code under test through an unguarded observation
+/// call of the harness (possible only when the code under test is broken in a way that is not
+/// this check's business) abandons the case and is counted. A panic of the harness itself is a
+/// defect of the machinery and is propagated (the shard dies, the driver reports INCONCLUSIVE).
+pub fn case_guard<T>(counters: &mut crate::json::Counters, f: impl FnOnce() -> T) -> Option<T> {
+    match crate::rec::guarded(f) {
+        Ok(v) => Some(v),
+        Err(p) => {
+            let loc = p.rsplit(" @ ").next().unwrap_or("");
+            if loc.starts_with("src/") || loc.contains("/verif/harness/") {
+                eprintln!("HARNESS PANIC: {p}");
+                std::process::exit(101);
+            }
+            counters.inc("case.abandoned-by-stray-panic-from-code-under-test");
+            None
+        }
+    }
+}
